@@ -928,11 +928,20 @@ def r_cache(F, cfg):
                 if "self_ty" in b.r and F.types[b.r["self_ty"]].get("p") == adt:
                     continue  # FftCache's own helpers
                 nl += 1
-                r = b.root(t["args"][2])
-                if not (r[0] == "param" and b.tys(r[1]).endswith(DIR_TY)):
+                from .dirflow import source_of
+                src = source_of(F, b, t["args"][2])
+                # the direction parameter of the function itself, or -- inside a closure -- of the enclosing function (captured)
+                eff = src[1:] if src and src[0] == "^" else src
+                root_fn = F.closure_parent(b) or b
+                ok_dir = eff and eff[0] == "P" and 1 <= eff[1] <= root_fn.argc and root_fn.tys(eff[1]).endswith(DIR_TY) and \
+                    (b is root_fn or (src and src[0] == "^"))
+                if b is not root_fn and b.kind == "Closure" and eff and eff[0] == "P" and not (src and src[0] == "^"):
+                    # a direction parameter of the closure itself (e.g. `inner_fft_fn(self, len, direction)` callbacks)
+                    ok_dir = 1 <= eff[1] <= b.argc and b.tys(eff[1]).endswith(DIR_TY)
+                if not ok_dir:
                     R.violation("cache:lookup:%s" % b.name, b.where(t), "%s queries the cache with a direction that is not its own direction parameter" % b.name)
                 else:
-                    R.ok({"lookup_in": b.name, "direction": "parameter %d" % r[1]}, nontrivial=True, sample_cap=16)
+                    R.ok({"lookup_in": b.name, "direction": "parameter %d%s" % (eff[1], " (captured)" if src[0] == "^" else "")}, nontrivial=True, sample_cap=16)
     R.metric("cache_lookups", nl)
     # recipe caches (scalar / SSE planners): HashMap<usize, Arc<Recipe>> keyed by the requested length
     nrc = 0
